@@ -163,7 +163,12 @@ Definition dpanic_toks (kind : N) (n : nat) : option (list N) :=
     the last one: the original value (token 0) is destroyed exactly once, its block returned once, the result is a sole
     owner of the clone. *)
 Definition run_dpanic (kind n k : N) : list N :=
-  if 20 <=? kind then (if (kind <? 24) && (n =? 0) && (k =? 0) then [0; SEP; 0; SEP; 1; 1] else [98]) else
+  if 24 <=? kind then
+    (* kinds 24..27: make_mut / OffsetArc::make_mut / make_unique / unwrap_or_clone of a SHARED value whose type has no
+       drop glue and is not Copy: exactly one Clone call, the copy is the Clone's result, the other owner's value is
+       untouched by a write through the result and it is the only owner left *)
+    (if (kind <? 28) && (n =? 0) && (k =? 0) then [0; SEP; SEP; 1; 1; 1; 1] else [98]) else
+  if 20 <=? kind then (if (n =? 0) && (k =? 0) then [0; SEP; 0; SEP; 1; 1] else [98]) else
   if 16 <? n then [99] else
   match dpanic_toks kind (N.to_nat n) with
   | None => [98]
